@@ -1,9 +1,9 @@
 package main
 
 import (
-	"strings"
 	"fmt"
 	"math"
+	"strings"
 
 	"github.com/biogo/biogo/alphabet"
 	"github.com/biogo/biogo/seq/linear"
@@ -117,6 +117,18 @@ func c18Case(r *obs.Run, i int) {
 					r.Violate("phred-roundtrip", fmt.Sprintf("linear.QSeq QDecode(QEncode) %d under %s = %d", q, encNames[e], got),
 						c18w{"linear.QSeq-roundtrip", q, encNames[e], got, q})
 				}
+				// the same through containers that do not start at position 0
+				for _, off := range []int{-3, 1, 40} {
+					php := quality.NewPhred("x", []alphabet.Qphred{7, alphabet.Qphred(q), 9}, e)
+					php.SetOffset(off)
+					qsp := linear.NewQSeq("x", []alphabet.QLetter{{L: 'a', Q: 7}, {L: 'c', Q: alphabet.Qphred(q)}, {L: 'g', Q: 9}}, alphabet.DNA, e)
+					qsp.SetOffset(off)
+					if g1, g2 := php.QDecode(php.QEncode(off+1)), qsp.Encoding().DecodeToQphred(qsp.QEncode(off+1)); int(g1) != q || int(g2) != q || int(php.At(off+1)) != q || int(qsp.At(off+1).Q) != q || !relClose(php.EAt(off+1), alphabet.Qphred(q).ProbE()) || !relClose(qsp.EAt(off+1), alphabet.Qphred(q).ProbE()) {
+						r.Violate("phred-roundtrip", fmt.Sprintf("containers starting at %d, middle position holding %d under %s: quality.Phred decode(QEncode)=%d At=%d EAt=%g, linear.QSeq decode(QEncode)=%d At=%d EAt=%g", off, q, encNames[e], g1, php.At(off+1), php.EAt(off+1), g2, qsp.At(off+1).Q, qsp.EAt(off+1)),
+							c18w{"placed-container-roundtrip", q, encNames[e], []int{int(g1), int(g2)}, q})
+					}
+					r.Count("placed_container_checks", 1)
+				}
 				// the string rendering of the score container carries the same byte, also when the encoding was set afterwards
 				ph2 := quality.NewPhred("x", []alphabet.Qphred{alphabet.Qphred(q), alphabet.Qphred(q)}, alphabet.None)
 				ph2.SetEncoding(e)
@@ -185,6 +197,15 @@ func c18Case(r *obs.Run, i int) {
 				r.Violate("solexa-encode-byte", fmt.Sprintf("quality.Solexa String()/EAt of two scores %d (encoding set with SetEncoding): %q, %g", s, str, so2.EAt(1)),
 					c18w{"quality.Solexa-String", s, "Solexa", str, s + 64})
 			}
+			for _, off := range []int{-3, 1, 40} {
+				sop := quality.NewSolexa("x", []alphabet.Qsolexa{7, alphabet.Qsolexa(s), 9}, alphabet.Solexa)
+				sop.SetOffset(off)
+				if g := sop.QDecode(sop.QEncode(off + 1)); int(g) != s || int(sop.At(off+1)) != s || !relClose(sop.EAt(off+1), alphabet.Qsolexa(s).ProbE()) {
+					r.Violate("solexa-roundtrip", fmt.Sprintf("quality.Solexa starting at %d, middle position holding %d: decode(QEncode)=%d At=%d EAt=%g", off, s, g, sop.At(off+1), sop.EAt(off+1)),
+						c18w{"placed-container-roundtrip", s, "Solexa", int(g), s})
+				}
+				r.Count("placed_container_checks", 1)
+			}
 			so := quality.NewSolexa("x", []alphabet.Qsolexa{alphabet.Qsolexa(s)}, alphabet.Solexa)
 			if got := so.QDecode(so.QEncode(0)); int(got) != s {
 				r.Violate("solexa-roundtrip", fmt.Sprintf("quality.Solexa QDecode(QEncode) %d = %d", s, got),
@@ -250,6 +271,12 @@ func c18Case(r *obs.Run, i int) {
 				if int(ph.At(0)) != q || !relClose(ph.EAt(0), want) {
 					r.Violate("phred-prob-roundtrip", fmt.Sprintf("quality.Phred SetE/At for q=%d gave %d", q, ph.At(0)), c18w{"quality.Phred-SetE", q, "", int(ph.At(0)), q})
 				}
+				// ... and linear.QSeq's, at a position other than 0 (q=0 is probability 1 exactly)
+				qs := linear.NewQSeq("x", []alphabet.QLetter{{L: 'a', Q: 3}, {L: 'c', Q: 3}}, alphabet.DNA, alphabet.Sanger)
+				qs.SetOffset(5)
+				if err := qs.SetE(6, want); err != nil || int(qs.At(6).Q) != q || int(qs.At(5).Q) != 3 || !relClose(qs.EAt(6), want) {
+					r.Violate("phred-prob-roundtrip", fmt.Sprintf("linear.QSeq SetE(%g) for q=%d returned %v and stored %d", want, q, err, qs.At(6).Q), c18w{"linear.QSeq-SetE", q, "", int(qs.At(6).Q), q})
+				}
 			}
 			if !(p <= prev) {
 				r.Violate("phred-monotone", fmt.Sprintf("ProbE(%d)=%g > ProbE(%d)=%g", q, p, q-1, prev), c18w{"phred-monotone", q, "", p, prev})
@@ -286,6 +313,11 @@ func c18Case(r *obs.Run, i int) {
 					r.Violate("solexa-prob-roundtrip", fmt.Sprintf("Esolexa(ProbE(%d))=%d", s, got), c18w{"esolexa-roundtrip", s, "", got, s})
 				}
 				so := quality.NewSolexa("x", []alphabet.Qsolexa{0}, alphabet.Solexa)
+				sop := quality.NewSolexa("x", []alphabet.Qsolexa{3, 3}, alphabet.Solexa)
+				sop.SetOffset(5)
+				if err := sop.SetE(6, want); err != nil || int(sop.At(6)) != s || int(sop.At(5)) != 3 {
+					r.Violate("solexa-prob-roundtrip", fmt.Sprintf("quality.Solexa starting at 5: SetE(6, %g) for s=%d returned %v and stored %d", want, s, err, sop.At(6)), c18w{"quality.Solexa-SetE", s, "", int(sop.At(6)), s})
+				}
 				so.SetE(0, want)
 				if int(so.At(0)) != s {
 					r.Violate("solexa-prob-roundtrip", fmt.Sprintf("quality.Solexa SetE/At for s=%d gave %d", s, so.At(0)), c18w{"quality.Solexa-SetE", s, "", int(so.At(0)), s})
